@@ -3,6 +3,7 @@ package main
 // decoded xdsresource structs -> tagged JSON terms of the Coq types in Model/Decode.v
 
 import (
+	"encoding/json"
 	"math"
 	"reflect"
 	"regexp"
@@ -104,6 +105,14 @@ func dListener(l *xdsresource.ListenerResource) interface{} {
 		nfs = append(nfs, C("Build_nfres", f.FilterType == xdsresource.NetworkFilterTypeThrift, f.RouteConfigName, uint64(f.RoutePort), inl))
 	}
 	return Lof(nfs)
+}
+
+// observeJSON renders decoded resources the way Dump does (json.Marshal) for every second case: rendering is an
+// observation and must leave what it renders unchanged, so whatever is read or used afterwards is compared as usual.
+func observeJSON(id int, v interface{}) {
+	if id%2 == 1 {
+		_, _ = json.Marshal(v)
+	}
 }
 
 func dEndpoints(e *xdsresource.EndpointsResource) interface{} {
